@@ -7,18 +7,21 @@ NATTR = {4: 10, 5: 10, 6: 9}
 UNITS = {c: Unit('att_b%d' % c, shim='shims/att_b.cpp', flags=['-DVF_BCFG=%d' % c], description=d) for c, d in DESCR.items()}
 
 REQS = [(0x04, 5), (0x08, 7), (0x08, 21), (0x10, 7), (0x10, 21)]
+# Read By Type with a 16 byte type UUID: the query does not fit into 16 GB (measured 14.7 GB / 14.5 GB, solver out of memory,
+# on B5 and on B7), so the real code is not run on it; only the oracle lemma (MODE 1) keeps that request form
+INFEASIBLE = [(0x08, 21)]
 
 
 def cases_for(cfg):
     def cases(tier):
         cs = []
         for opc, ln in REQS:
+            if (opc, ln) in INFEASIBLE:
+                continue
             if tier == 'quick':
                 # the cost of Find Information / Read By Type grows with (number of attributes)^2 and doubles for a 128 bit type:
-                # quick keeps MTU 23 for every request kind on every declaration, the 128 bit Read By Type on B5 only
-                # (the declaration with two 128 bit value types) and MTU 65 for Find Information on B6
-                if (opc, ln) == (0x08, 21) and cfg != 4:
-                    continue
+                # quick keeps MTU 23 for every request kind on every declaration, the 16 byte type forms on B7 only
+                # and MTU 65 for Find Information on B6
                 if (opc, ln) == (0x10, 21) and cfg != 6:
                     continue
                 mtus = (23, 65) if (opc, ln) == (0x04, 5) and cfg == 5 else (23,)
@@ -27,7 +30,7 @@ def cases_for(cfg):
             for mtu in mtus:
                 cs.append({'CFG': cfg, 'MODE': 0, 'OPC': opc, 'LEN': ln, 'MTU': mtu})
         for opc, ln in REQS:
-            if tier == 'quick' and ln == 21 and cfg != 4:
+            if tier == 'quick' and ln == 21 and cfg != 6:
                 continue
             cs.append({'CFG': cfg, 'MODE': 1, 'OPC': opc, 'LEN': ln, 'MTU': 23})
         return cs
@@ -37,7 +40,7 @@ def cases_for(cfg):
 PROPERTY = Property(
     'C02',
     [Harness('c02_disc_b%d' % c, UNITS[c], 'harness/c02_disc.c', cases_for(c), unwind=24,
-             unwindset=['vf_b_l2cap_input.0:%d' % (NATTR[c] + 2), 'vf_b_l2cap_input.1:%d' % (NATTR[c] + 2), 'memcpy.0:72'], timeout=1500,
+             unwindset=['vf_b_l2cap_input.0:%d' % (NATTR[c] + 2), 'vf_b_l2cap_input.1:%d' % (NATTR[c] + 2), 'memcpy.0:22'], timeout=1500,
              description='one Find Information / Read By Type / Read By Group Type request with symbolic handle range and type against the expected attribute table of '
                          + DESCR[c] + '; plus the lemma that accepted responses, iterated, enumerate every match exactly once',
              bounds='request lengths 5 / 7 / 21; start, end, type UUID and the bound characteristic values fully symbolic; client MTU = output buffer 23 (every request kind on every declaration; the 16 byte type forms on one declaration each) and 65 '
@@ -58,7 +61,8 @@ PROPERTY = Property(
                 'must be the Error Response Attribute Not Found iff the table has no match in range, otherwise a non-empty run of the matches starting with the first '
                 'one, with the right handles, UUIDs, group end handles and values; a second query shows on the oracle that iterating accepted responses enumerates '
                 'every match exactly once',
-    outside=['server declarations other than B5..B7 (the cost of one query grows with the square of the number of attributes: 21 attributes did not finish in 13 minutes)',
+    outside=['Read By Type with a 16 byte type UUID (request length 21): the solver ran out of memory (14.7 GB on B5, 14.5 GB on B7, limit 16 GB); the known finding c02_read_by_type_128bit_never_matches (Attribute Not Found for the 128 bit type of an existing attribute) is therefore confirmed by a native run only',
+             'server declarations other than B5..B7 (the cost of one query grows with the square of the number of attributes: 21 attributes did not finish in 13 minutes)',
              'attributes that are not readable (no_read_access, encryption)', 'MTU values above 65',
              'Read By Group Type for <<Secondary Service>> (answered with Unsupported Group Type, accepted)'],
 )
